@@ -3,7 +3,7 @@
    call-convention switches, native signatures). Re-checked on every run. *)
 From Coq Require Import List ZArith Bool String.
 From RG.Base Require Import Outcome GoInt GoSlice.
-From RG.Quasigo Require Import Source Bytecode Compile VM Sem Guards Link ExprCorrect StmtCorrect FunCorrect Assemble Correct Encodable Env.
+From RG.Quasigo Require Import Source Bytecode Compile VM Sem Guards Link ExprCorrect StmtCorrect FunCorrect Assemble Correct Encodable PanicKind Env.
 From RGW Require Import Gen_Quasigo Inst_Quasigo.
 Import ListNotations.
 Local Open Scope Z_scope.
@@ -59,6 +59,12 @@ Theorem assemble_simulates : forall names C, forallb encodable C = true ->
   forall pc i, instr_at C pc = Some i -> decode_at (the_cfg names) (assemble (the_cfg names) C) pc = Some i.
 Proof. intros names C. apply Correct.assemble_simulates. apply config_facts. Qed.
 
+(* the run-time failures of the source semantics are slice-bounds panics (never the kind the VM model reports for its own
+   index failures, e.g. a function ID without a function) *)
+Theorem go_panics_are_slice_bounds : forall sig nat_fun p fuel id args w,
+  call_sem sig nat_fun p fuel id args = EPanic w -> w = PSliceBounds.
+Proof. exact PanicKind.call_sem_panic_kind. Qed.
+
 (* ---- several units compiled into one environment (Env.v) ---- *)
 (* compiling further units (rules files) only appends to the table of user functions: every function ID handed out
    earlier still denotes the same compiled function, and the table stays the compilation of the resolved sources *)
@@ -78,7 +84,7 @@ Theorem later_units_preserve_meaning : forall names nat_fun e us,
     (forall r, call_sem (nat_sig (the_cfg names)) nat_fun (ev_srcs e) fuel id args = EOk r ->
        exists fuel' cr, call_fun (the_cfg names) (map (vfunc_bytes (the_cfg names)) (ev_funcs (load_units (the_cfg names) us e))) nat_fun fuel'
                           (vfunc_bytes (the_cfg names) cf) args = RDone cr /\ result_matches r cr) /\
-    (forall w, call_sem (nat_sig (the_cfg names)) nat_fun (ev_srcs e) fuel id args = EPanic w -> w <> PIndex ->
+    (forall w, call_sem (nat_sig (the_cfg names)) nat_fun (ev_srcs e) fuel id args = EPanic w ->
        exists fuel', call_fun (the_cfg names) (map (vfunc_bytes (the_cfg names)) (ev_funcs (load_units (the_cfg names) us e))) nat_fun fuel'
                        (vfunc_bytes (the_cfg names) cf) args = RPanic w).
 Proof. intros names nat_fun e us. exact (Env.later_units_preserve_meaning (the_cfg names) nat_fun e us). Qed.
